@@ -130,6 +130,18 @@ def cases(tier, seed):
               {"days": -7}, {"weeks": -1, "days": 6}, {"seconds": 86400 * 7 - 1}, {"microseconds": -1}, {"microseconds": 1}):
         _routes(out, "dur-pinned", "dur", [0] + _dur_args(v))
         _routes(out, "absdur-pinned", "dur", [1] + _dur_args(v))
+    # --- magnitudes beyond the float-exact domain of Duration.__new__ (C09's D9)
+    big = [{"years": 1000, "microseconds": 1}, {"days": 200000, "microseconds": 1}, {"years": 300, "days": 3, "microseconds": 7},
+           {"days": 699996, "microseconds": 5}, {"years": -300, "days": -3, "microseconds": -7}, {"days": 999999999, "hours": 23, "microseconds": 999999},
+           {"days": -999999999}, {"years": 2000000, "months": 11, "microseconds": 123457}]
+    for _ in range(200 if thorough else 24):
+        v = {"days": rnd.choice((1, -1)) * rnd.randrange(100000, 900000000), "seconds": rnd.randrange(-90000, 90000), "microseconds": rnd.randrange(-999999, 1000000)}
+        if rnd.random() < 0.5:
+            v = {"years": rnd.choice((1, -1)) * rnd.randrange(100, 3000), "months": rnd.randrange(-20, 20), "days": rnd.randrange(-6, 7),
+                 "seconds": rnd.randrange(-90000, 90000), "microseconds": rnd.randrange(-999999, 1000000)}
+        big.append(v)
+    for v in big:
+        _routes(out, "dur-large", "dur", [0] + _dur_args(v))
     # --- Interval
     ivs = []
     amb = []          # ambiguous (zone, W) pairs
@@ -561,10 +573,24 @@ def known(c, backend, r):
             if cc[1:3] == [0, 0] and cc[11:14] == co[11:14] and cc[0] == co[0] and eq and (ab == 0 or cc[3:11] == co[3:11]):
                 return "duration-pickle-drops-years-months"
             return None
-        if route == 7 and ab == 0 and co[3] != 0:
-            # Duration.__deepcopy__ omits weeks: everything else identical, native value smaller by weeks * 7 days
-            if cc[3] == 0 and cc[1:3] == co[1:3] and cc[4:10] == co[4:10] and cc[11] == co[11] - 7 * co[3] and cc[12:14] == co[12:14]:
-                return "duration-deepcopy-drops-weeks"
+        if route == 7 and ab == 0:
+            # exact integer split of the part R of the native value that excludes years / months (what the accessors should be)
+            N = (co[11] * 86400 + co[12]) * T.MEG + co[13]
+            R = N - (y * 365 + mo * 30) * 86400 * T.MEG
+            sg = -1 if R < 0 else 1
+            it, micro = abs(R) // T.MEG, abs(R) % T.MEG * sg
+            ds = it // 86400
+            exact = [ds // 7 * sg, ds % 7 * sg, it % 86400 * sg, micro]
+            if [co[3], co[4], co[9], co[8]] != exact:
+                # the ORIGINAL's components do not add up to its value (float resolution of Duration.__new__ beyond 2^32 s, C09):
+                # __deepcopy__ rebuilds from them, so the copy is another timedelta even apart from the weeks
+                if cc[1:3] == co[1:3] and abs(N) >= 2 ** 32 * T.MEG:
+                    return "duration-deepcopy-inexact-components"
+                return None
+            if co[3] != 0:
+                # Duration.__deepcopy__ omits weeks: everything else identical, native value smaller by weeks * 7 days
+                if cc[3] == 0 and cc[1:3] == co[1:3] and cc[4:10] == co[4:10] and cc[11] == co[11] - 7 * co[3] and cc[12:14] == co[12:14]:
+                    return "duration-deepcopy-drops-weeks"
             return None
         if route == 7 and ab == 1 and (co[3] != 0 or co[10] == 1):
             # AbsoluteDuration through Duration.__deepcopy__: weeks omitted, sign (invert) lost, components otherwise identical
